@@ -1,6 +1,7 @@
 package harness
 
 import (
+	"reflect"
 	"context"
 	"errors"
 	"fmt"
@@ -279,8 +280,12 @@ func c19Realise(batch bool, settings []Setting) c19Obs {
 	var modeOf func() string
 	if !batch {
 		var opts []any
+		// a batch setting the plain builder of this implementation has no method for exists as an option only
+		optOnly := func(s Setting) bool {
+			return (s.Param == "conc" && !plainBuilderHas("WithBatchConcurrency")) || (s.Param == "mode" && !plainBuilderHas("WithBatchErrorHandling"))
+		}
 		for _, s := range settings {
-			if s.Form != "opt" {
+			if s.Form != "opt" && !optOnly(s) {
 				continue
 			}
 			if o := baseOpt(s); o != nil {
@@ -310,9 +315,9 @@ func c19Realise(batch bool, settings []Setting) c19Obs {
 				opts = append(opts, flyt.WithExecFallbackFunc(p.fb(s.Val)))
 			}
 		}
-		b := flyt.NewNode(opts...)
+		b := newNode(opts)
 		for _, s := range settings {
-			if s.Form == "opt" {
+			if s.Form == "opt" || optOnly(s) {
 				continue
 			}
 			if s.Form == "late" {
@@ -324,9 +329,9 @@ func c19Realise(batch bool, settings []Setting) c19Obs {
 			case "wait":
 				b = b.WithWait(c19Waits[s.Val])
 			case "conc":
-				b = b.WithBatchConcurrency(c19Conc[s.Val])
+				callBuilder(b, "WithBatchConcurrency", c19Conc[s.Val])
 			case "mode":
-				b = b.WithBatchErrorHandling(c19Modes[s.Val])
+				callBuilder(b, "WithBatchErrorHandling", c19Modes[s.Val])
 			case "prep":
 				if s.Val == 2 {
 					b = b.WithPrepFuncAny(p.prepA(s.Val))
@@ -522,6 +527,10 @@ func c19Diff(got, want c19Obs, what string) string {
 	return ""
 }
 
+func plainBuilderHas(method string) bool {
+	return reflect.ValueOf(flyt.NewNode()).MethodByName(method).IsValid()
+}
+
 func checkC19(t *testing.T, c C19Case) Verdict {
 	// normalise: batch nodes have no option form for functions and no fallback builder
 	var settings []Setting
@@ -533,6 +542,9 @@ func checkC19(t *testing.T, c C19Case) Verdict {
 			if (s.Param == "prep" || s.Param == "exec" || s.Param == "post") && s.Form != "builder" {
 				s.Form = "builder"
 			}
+		}
+		if !c.Batch && s.Form != "opt" && (s.Param == "conc" && !plainBuilderHas("WithBatchConcurrency") || s.Param == "mode" && !plainBuilderHas("WithBatchErrorHandling")) {
+			s.Form = "opt" // the plain builder of this implementation has no such method: only the option exists
 		}
 		if s.Form == "late" {
 			// "late" (an option applied to the embedded BaseNode after construction) is a third style
